@@ -66,6 +66,9 @@ type LabCase struct {
 	SkipNodes map[string]string // test -> wrapper (applied in the judged run only)
 	SkipAt    map[string]int
 	Classes   vkit.Classes
+	// judged-run mutations (C20): test -> call index -> changed value / Update option
+	MutVal map[string]map[int]string
+	MutUpd map[string]map[int]*bool
 }
 
 func hostileBody(r *rand.Rand, i int) string {
@@ -275,6 +278,17 @@ func (lc *LabCase) withSkips() *Scenario {
 		if w, ok := lc.SkipNodes[k]; ok {
 			c.Skip = w
 			c.SkipAt = lc.SkipAt[k]
+		}
+		if lc.MutVal[k] != nil || lc.MutUpd[k] != nil {
+			c.Calls = append([]Call(nil), n.Calls...)
+			for i := range c.Calls {
+				if v, ok := lc.MutVal[k][i]; ok {
+					c.Calls[i].Val = v
+				}
+				if u, ok := lc.MutUpd[k][i]; ok {
+					c.Calls[i].Update = u
+				}
+			}
 		}
 		s.Nodes[k] = &c
 	}
